@@ -12,7 +12,11 @@ import (
 	"os"
 	"path/filepath"
 	"sort"
+	"sync"
 	"time"
+
+	"github.com/piotrnar/gocoin/lib/btc"
+	"github.com/piotrnar/gocoin/lib/chain"
 
 	"github.com/piotrnar/gocoin/lib/utxo"
 	"verif/env"
@@ -29,8 +33,8 @@ type ParamSpec struct {
 	CSV     uint32 `json:"csv"`
 	Segwit  uint32 `json:"segwit"`
 	Taproot uint32 `json:"taproot"`
-	Prefix  int    `json:"prefix"` // empty blocks mined and delivered before the ops
-	Base    uint32 `json:"base,omitempty"` // height assigned to the genesis node (to reach halving boundaries)
+	Prefix  int    `json:"prefix"`            // empty blocks mined and delivered before the ops
+	Base    uint32 `json:"base,omitempty"`    // height assigned to the genesis node (to reach halving boundaries)
 	Spacing uint32 `json:"spacing,omitempty"` // seconds between prefix blocks (default 600)
 	Signed  bool   `json:"signed,omitempty"`  // outputs may also be P2PKH / P2WPKH / P2SH-P2WPKH / P2TR (signed by the reference signer)
 	PowBits uint32 `json:"powbits,omitempty"`
@@ -45,15 +49,15 @@ type OutSpec struct {
 type TxSpec struct {
 	Ins  []int     `json:"ins"`
 	Outs []OutSpec `json:"outs"`
-	Fee  int       `json:"fee"`           // per mille of the input sum
-	Seq  int       `json:"seq,omitempty"` // 0 final, 1 satisfied relative height lock, 2 disabled lock with noise, 3 satisfied time lock
+	Fee  int       `json:"fee"`            // per mille of the input sum
+	Seq  int       `json:"seq,omitempty"`  // 0 final, 1 satisfied relative height lock, 2 disabled lock with noise, 3 satisfied time lock
 	Lock int       `json:"lock,omitempty"` // 0 none, 1 height-1 (final), 2 MTP-1 (final)
 	Ver  int       `json:"ver,omitempty"`  // 0 -> 2
 }
 
 type Op struct {
-	Kind   string   `json:"k"`               // block | deliver | idle | save | reopen
-	Parent int      `json:"p,omitempty"`     // block: -1 = model tip, else index into mined nodes (mod)
+	Kind   string   `json:"k"`           // block | deliver | idle | save | reopen
+	Parent int      `json:"p,omitempty"` // block: -1 = model tip, else index into mined nodes (mod)
 	Txs    []TxSpec `json:"txs,omitempty"`
 	Viol   string   `json:"viol,omitempty"`
 	Arg    int      `json:"arg,omitempty"`
@@ -119,25 +123,26 @@ func knownClass(n *MNode) string {
 }
 
 type Sim struct {
-	Open   func(key string) bool // reports whether a known finding is listed as open
-	P      *consensus.Params
-	B      *env.Builder
-	Node   *env.Node
-	Dir    string
-	Opts   env.Options
-	Root   *MNode
-	Nodes  []*MNode
-	Tip    *MNode
-	Held   []*MNode
-	seq    int
-	minSeq int
-	extra  uint64
-	quiet  bool
-	Cfg    Config
-	CurStep int // index of the op being executed (-1 during the prefix)
-	Hooks  Hooks
-	Signed bool     // also use signed output families (P2PKH, P2WPKH, P2SH-P2WPKH, P2TR key path)
-	Labels []string // class labels collected during the run
+	Open       func(key string) bool // reports whether a known finding is listed as open
+	P          *consensus.Params
+	B          *env.Builder
+	Node       *env.Node
+	Dir        string
+	Opts       env.Options
+	Root       *MNode
+	Nodes      []*MNode
+	Tip        *MNode
+	Held       []*MNode
+	seq        int
+	minSeq     int
+	extra      uint64
+	quiet      bool
+	scriptMemo map[string]bool
+	Cfg        Config
+	CurStep    int // index of the op being executed (-1 during the prefix)
+	Hooks      Hooks
+	Signed     bool     // also use signed output families (P2PKH, P2WPKH, P2SH-P2WPKH, P2TR key path)
+	Labels     []string // class labels collected during the run
 	// ExcludedKeys: disagreements inside the class of an open known finding after which the history went on
 	ExcludedKeys []string
 	// counters
@@ -180,6 +185,9 @@ func NewCfg(ps ParamSpec, opts env.Options, cfg Config) (*Sim, error) {
 			return nil, err
 		}
 	}
+	vouchMu.Lock()
+	vouched = map[[32]byte]bool{} // per history: what the stand-in mempool has verified (see vouch)
+	vouchMu.Unlock()
 	s := &Sim{P: Params(ps), B: env.NewBuilder(), Dir: dir, Opts: opts, Cfg: cfg, CurStep: -1, Signed: ps.Signed}
 	if !cfg.ModelOnly {
 		s.Node, err = env.Open(dir, s.P, opts)
@@ -259,13 +267,29 @@ func (s *Sim) Valid(n *MNode) bool {
 // expectation is cross-checked against it (a disagreement is a bug of the harness, not of gocoin).
 func (s *Sim) verifier() consensus.ScriptVerifier {
 	return func(tx *wire.Tx, idx int, spent []wire.TxOut, flags uint32) bool {
-		ok, _ := interp.Verify(tx.In[idx].ScriptSig, spent[idx].PkScript, tx.In[idx].Witness, tx, idx, spent[idx].Value, spent, flags)
+		ok := s.scriptOK(tx, idx, spent, flags)
 		id := tx.TxID()
 		if v, known := s.B.Valid[consensus.OutKey(id, uint32(idx))]; known && v != ok && !s.B.Loose[consensus.OutKey(id, uint32(idx))] {
 			panic(fmt.Sprintf("sim: harness bug: input %d of %x was built to be valid=%v, the reference interpreter says %v (pk %x)", idx, id[:6], v, ok, spent[idx].PkScript))
 		}
 		return ok
 	}
+}
+
+// scriptOK is the reference interpreter's verdict, remembered per (wtxid, input, flags): the outputs a given
+// transaction spends are fixed by its outpoints.
+func (s *Sim) scriptOK(tx *wire.Tx, idx int, spent []wire.TxOut, flags uint32) bool {
+	w := tx.WTxID()
+	k := fmt.Sprintf("%x/%d/%x", w[:], idx, flags)
+	if v, ok := s.scriptMemo[k]; ok {
+		return v
+	}
+	ok, _ := interp.Verify(tx.In[idx].ScriptSig, spent[idx].PkScript, tx.In[idx].Witness, tx, idx, spent[idx].Value, spent, flags)
+	if s.scriptMemo == nil {
+		s.scriptMemo = map[string]bool{}
+	}
+	s.scriptMemo[k] = ok
+	return ok
 }
 
 // validAncestor is n or its nearest ancestor with a valid chain.
@@ -346,6 +370,27 @@ func (s *Sim) Step(op Op) error {
 			return nil
 		}
 		err = s.deliver(cand[mod(op.Pick, len(cand))])
+	case "redeliver_invalid":
+		// a peer offers a branch again whose first block failed when the node tried to connect it: that block
+		// and every delivered descendant, parents first
+		var cand []*MNode
+		for _, n := range s.Nodes[1:] {
+			if n.Delivered && n.CheckErr == nil && s.Valid(n.Parent) && !s.Valid(n) {
+				cand = append(cand, n)
+			}
+		}
+		if len(cand) == 0 {
+			return nil
+		}
+		bad := cand[mod(op.Pick, len(cand))]
+		s.label("redeliver-invalid-branch")
+		for _, n := range s.Nodes[1:] {
+			if n.Delivered && isAncestor(bad, n) {
+				if err = s.deliver(n); err != nil {
+					break
+				}
+			}
+		}
 	case "idle":
 		if s.Node == nil {
 			break
@@ -412,6 +457,7 @@ func (s *Sim) deliver(n *MNode) error {
 	if s.Node == nil {
 		return s.deliverModelOnly(n, oldTip, parentPresent, wasPresent, first)
 	}
+	s.vouch(n)
 	if n.PreRaw != nil && first && parentPresent == 1 {
 		if _, _, e := s.Node.Deliver(n.PreRaw); e == nil {
 			return fmt.Errorf("block %x (height %d): a copy with duplicated trailing transactions (same merkle root) was accepted", n.Idx.Hash[:6], n.Idx.Height)
@@ -439,7 +485,7 @@ func (s *Sim) deliver(n *MNode) error {
 		return s.compare("deliver-dup")
 	case parentPresent == 2 || wasPresent == 2:
 		// the node may or may not still know the (invalid) parent; either way nothing valid is added
-		if gerr == nil && n.CheckErr != nil {
+		if gerr == nil && n.CheckErr != nil && !connectTimeRule(n.CheckErr) {
 			return fmt.Errorf("%s: the reference refuses the block (%v), the node accepted it", what, n.CheckErr)
 		}
 		n.Present = 2
@@ -449,6 +495,20 @@ func (s *Sim) deliver(n *MNode) error {
 		}
 		s.Valid(n)
 		return s.settle(n, oldTip, gerr, what, true)
+	}
+	if n.CheckErr != nil && gerr == nil && n.Parent != oldTip && connectTimeRule(n.CheckErr) {
+		// Two of C04's rules (no output spent twice, sig-op cost) are judged by the reference already in
+		// CheckBlock; the property only demands that such a block never becomes part of the ACTIVE chain.
+		// A node that stores it on a side branch and refuses it when it is about to be connected complies:
+		// from here on it is a block that is invalid only when connected.
+		if first || wasPresent == 0 {
+			n.Seq = s.seq
+			s.seq++
+		}
+		s.label("stored-on-side-branch/" + errClass(n.CheckErr))
+		n.Present = 2
+		s.Valid(n)
+		return s.settle(n, oldTip, gerr, what, false)
 	}
 	if n.CheckErr != nil {
 		s.Refused++
@@ -492,6 +552,95 @@ func (s *Sim) deliver(n *MNode) error {
 		n.Present = 2
 	}
 	return s.settle(n, oldTip, gerr, what, false)
+}
+
+// The running client installs chain.TrustedTxChecker (client/txpool): a transaction that sits in the mempool with
+// the same wtxid has had its scripts verified (with the standard flags, a superset of every block's flags) against
+// the very outputs it spends, and commitTxs skips its scripts when it arrives in a block.  The harness stands in
+// for that mempool: before a block is handed to the node, each of its transactions whose inputs all exist in the
+// model's view and all verify in the reference interpreter under the complete flag set of these parameters is
+// vouched for - when a fixed bit of its wtxid is set, so that both the trusted and the untrusted path of commitTxs
+// are exercised by the same histories.  Everything else about such a transaction (amounts, maturity, sigops cost,
+// BIP68, double spends) must be judged exactly as before.
+var (
+	vouchMu sync.Mutex
+	vouched = map[[32]byte]bool{}
+	// Vouching can be switched off (VERIF_NO_TRUSTED=1) to compare behaviours while debugging.
+	noVouch = os.Getenv("VERIF_NO_TRUSTED") != ""
+	// VouchedSeen counts the calls of the checker that answered yes (evidence: the trusted path was taken).
+	VouchedSeen int64
+)
+
+// TakeVouchedSeen returns and resets the number of transactions the node connected on its trusted path.
+func TakeVouchedSeen() int64 {
+	vouchMu.Lock()
+	defer vouchMu.Unlock()
+	n := VouchedSeen
+	VouchedSeen = 0
+	return n
+}
+
+func init() {
+	chain.TrustedTxChecker = func(tx *btc.Tx) bool {
+		k := wire.DSHA(tx.SerializeNew())
+		vouchMu.Lock()
+		defer vouchMu.Unlock()
+		if vouched[k] {
+			VouchedSeen++
+			return true
+		}
+		return false
+	}
+}
+
+func (s *Sim) vouch(n *MNode) {
+	if noVouch || n.Parent == nil || n.CheckErr != nil || !s.Valid(n.Parent) || n.Parent.View == nil {
+		return
+	}
+	full := consensus.BlockScriptFlags(0xffffffff, s.P)
+	view := n.Parent.View
+	created := map[[36]byte]consensus.Coin{}
+	spentHere := map[[36]byte]bool{}
+	for ti, tx := range n.Block.Txs {
+		id := tx.TxID()
+		if ti > 0 {
+			w := tx.WTxID()
+			ok := w[0]&1 == 1
+			spent := make([]wire.TxOut, len(tx.In))
+			for j, in := range tx.In {
+				k := consensus.OutKey(in.PrevHash, in.PrevIndex)
+				c, have := created[k]
+				if !have {
+					c, have = view[k]
+				}
+				if !have || spentHere[k] {
+					return // the block cannot be connected: nothing after this point matters
+				}
+				spentHere[k] = true
+				spent[j] = wire.TxOut{Value: c.Value, PkScript: c.Script}
+			}
+			for j := 0; ok && j < len(tx.In); j++ {
+				ok = s.scriptOK(tx, j, spent, full)
+			}
+			if ok {
+				vouchMu.Lock()
+				vouched[w] = true
+				vouchMu.Unlock()
+			}
+		}
+		for j, o := range tx.Out {
+			created[consensus.OutKey(id, uint32(j))] = consensus.Coin{Value: o.Value, Script: o.PkScript}
+		}
+	}
+}
+
+// connectTimeRule: rules of C04 (not of C05) that the reference happens to check before a block is stored.
+func connectTimeRule(e error) bool {
+	switch e.Error() {
+	case "bad-txns-inputs-duplicate", "bad-blk-sigops":
+		return true
+	}
+	return false
 }
 
 // WaitSnapshot waits until a started snapshot has been written and renamed (or aborted).
@@ -696,16 +845,16 @@ type pending struct {
 type bctx struct {
 	bad, badPos int // position of the input built to fail (addTx with validLast=false)
 	pendingSign []pending
-	s        *Sim
-	parent   *MNode
-	height   uint32
-	view     consensus.UTXO
-	list     []cand // spendable, mature, known recipe
-	immature []cand
-	txs      []*wire.Tx
-	fees     uint64
-	mtp      uint32
-	segwit   bool
+	s           *Sim
+	parent      *MNode
+	height      uint32
+	view        consensus.UTXO
+	list        []cand // spendable, mature, known recipe
+	immature    []cand
+	txs         []*wire.Tx
+	fees        uint64
+	mtp         uint32
+	segwit      bool
 }
 
 func (s *Sim) sortedCands(view consensus.UTXO, height uint32, segwit bool) (list, immature []cand) {
